@@ -2,3 +2,6 @@ import OlVerif.Props.C13
 #print axioms OlVerif.C13.unpack
 #print axioms OlVerif.C13.dunder_table
 #print axioms OlVerif.C13.model_uses_table
+#print axioms OlVerif.C13.aug_name_single_store
+#print axioms OlVerif.C13.aug_attr_single_store
+#print axioms OlVerif.C13.aug_sub_single_store
